@@ -57,5 +57,6 @@ Clause == IF C.raised THEN "fit-raised"
           ELSE IF QueryClause # "ok" THEN QueryClause
           ELSE MetaClause
 Verdict == LET c == Clause IN IF c = "ok" THEN <<"ok">> ELSE IF c = "inconclusive" THEN <<"inconclusive", "not-in-general-position">> ELSE <<"rejected", c>>
-Emit == PrintT(ToJson([k |-> "V", id |-> C.id, v |-> Verdict, ctx |-> [kind |-> C.kind, nvert |-> Cardinality(V)]]))
+Emit == PrintT(ToJson([k |-> "V", id |-> C.id, v |-> Verdict, ctx |-> [kind |-> C.kind, nvert |-> Cardinality(V),
+                       residual_not_finite |-> (\E v \in 1..N : v \in Sel /\ C.hnan[v] /\ \A u \in Sel : C.hres[u] \/ C.hnan[u])]]))
 =============================================================================
